@@ -487,7 +487,16 @@ def malformed_cases(tier, rng, prefix="m"):
                 if cands:
                     a, b = rng.choice(cands)
                     k, ls = paras[a][b]
-                    paras[a][b] = (k, ls + [RAW + rng.choice([" ", "\t", " #c", "  "])])
+                    odd = RAW + rng.choice([" ", "\t", " #c", "  "])
+                    multi = [(a2, b2) for (a2, b2) in cands if len(paras[a2][b2][1]) > 1]
+                    if multi and j % 2 == 1:
+                        # ... or BETWEEN two lines of a value (a lossy value keeps it as an empty line)
+                        a, b = rng.choice(multi)
+                        k, ls = paras[a][b]
+                        pos = rng.randrange(1, len(ls))
+                        paras[a][b] = (k, ls[:pos] + [odd] + ls[pos:])
+                    else:
+                        paras[a][b] = (k, ls + [odd])
                 add(kind, doc_text(rng, paras, True), uses)
             elif m == 5:    # a word starting with '#' in a white-space separated list
                 paras, uses = gen_doc(rng, kind)
